@@ -48,6 +48,11 @@ class Ctx(object):
             fmt = f['format']
             for x in f['fields']:
                 lines.append('const verif_u64 verif_e_%s = (verif_u64)(%s);' % (x['enum'], x['enum']))
+            for x in f['fields']:
+                if x.get('getter'):
+                    # is the dedicated getter's declared return type unsigned?  (the *caller* widens the result)
+                    lines.append('const verif_u64 verif_retuns_%s = (((__typeof__(%s((%s*)0)))-1) > 0);'
+                                 % (x['getter'], x['getter'], f['type']))
             lines.append('const verif_u64 verif_max_%s = (verif_u64)(%s);' % (fmt, f['enum_max']))
             lines.append('const verif_u64 verif_sizeof_%s = sizeof(%s);' % (fmt, f['type']))
             lines.append('const verif_u64 verif_hdrarr_%s = sizeof(((%s*)0)->header);' % (fmt, f['type']))
